@@ -11,7 +11,8 @@ def run(ctx):
     rnd = random.Random(ctx.seed + 20)
     progs = [p for p in progsuite.gen_programs(ctx, 600 if ctx.tier == 'quick' else 6000, 1)]
     rnd.shuffle(progs)
-    pool = [src for src, ast, root, stream in progs if len(src) < 120]
+    # programs run with the unit input here: the loop-nesting stream needs numeric inputs to terminate
+    pool = [src for src, ast, root, stream in progs if len(src) < 120 and stream != 'loops']
     fixed = ['5 + 5', '{ $ * 2 } <~ 4', '1 > 2 ?> 3 |> 4', '(1, :a = 2) . a', '{ !! ($ < 3) ?> $ |> ^~ $ + 1 } <~ 0', 'x && 1', '"ab" == "ab"', '1 [2] 3', '5 ; $ + 1']
     cases = []
     seqs = []
@@ -74,6 +75,10 @@ def run(ctx):
             if not got_items:
                 continue
             got = val(got_items[-1].split(':', 1)[1])
+            # the harness keeps at most 400 host-call records per object: after a run that was cut at the step limit the
+            # trace of later runs may be truncated, so only the value is compared then
+            if any('steplimit' in x for x in runs) and want[0] == 'ok' and got[0] == 'ok':
+                got, want = got[:2], want[:2]
             if want[0] == 'ok' and got != want:
                 ctx.fail('oracle', c, impl=got_items[-1], expect=simpl.get(alone[(st, s)]), note=f'program {i} ({s!r}) computes a different result in the shared object than when built alone')
                 stats['different'] = stats.get('different', 0) + 1
